@@ -30,12 +30,12 @@ BOUND = ('pairs: every sequence of <=3 (quick) / <=5 (thorough) pairs over 3 key
          'Histories (Q5/Q6): start environ {no QUERY_STRING key, empty, pairs} x every sequence of <=2 (thorough <=3) steps from '
          '{assign pairs P1, assign pairs P2, assign "", del} x every choice of reading or not reading before each step x read of '
          '{query+GET, params, all} x {handler of a served app, bare Request(environ)}; the same for the body with steps '
-         '{replace wsgi.input by P1, P2 (different length), P2 padded to equal length, empty} from {no body, empty body, pairs} '
-         'under Content-Length and chunked framing. '
+         '{replace wsgi.input by a stream of P1, P2, empty} from {no body, empty body, P1, P2} under chunked framing, and under '
+         'Content-Length framing with all bodies of one history padded (one extra pair) to the same length. '
          'Totality: ALL strings of length <=7 (quick) / <=9 (thorough) over {a,=,&,%,+,2} (exhaustive) and seeded random '
          'Unicode / byte strings through parse_qsl, Request.query and Request.forms')
 NONTRIVIAL_RULE = ('distinct (kind, pairs, encoder) or (totality prefix); non-trivial = at least one pair, or a totality '
-                   'block of more than one string')
+                   'block of more than one string, or a history with at least one change of the query string / body')
 
 ALPHABET = 'a=&%+2'
 POOL = ['a', 'b', 'k', '', ' ', 'x y', 'a=b', 'a&b', '&', '=', '+', 'a+b', '%', '%41', '%zz', '100%', 'é', '€', '\U0001F600z',
@@ -52,6 +52,8 @@ def nontrivial(case):
         return True
     if case['kind'] in ('rawtext', 'rawbody'):
         return len(case['raw']) > 0
+    if case['kind'] in ('hq', 'hb'):
+        return any(op[0] != 'read' for op in case['ops'])
     return len(case.get('pairs', [])) + len(case.get('qpairs', [])) > 0
 
 
@@ -188,6 +190,16 @@ QSTEPS = [['setq', 'P1'], ['setq', 'P2'], ['setq', 'E'], ['delq']]
 BSTEPS = [['setb', 'P1'], ['setb', 'P2'], ['setb', 'E']]
 
 
+def _padded(pairs, enc, total):
+    """pairs + one more pair ['Bz', 'zz..'] so that the encoded body is exactly `total` bytes long"""
+    n = len(encode([tuple(p) for p in pairs], enc))
+    k = total - n - (4 if pairs else 3)
+    assert k >= 0
+    out = [list(p) for p in pairs] + [['Bz', 'z' * k]]
+    assert len(encode([tuple(p) for p in out], enc)) == total
+    return out
+
+
 def gen_histories(tier):
     quick = tier == 'quick'
     maxn = 2 if quick else 3
@@ -197,18 +209,28 @@ def gen_histories(tier):
             for n in range(1, maxn + 1):
                 for seq in itertools.product(steps, repeat=n):
                     for mask in range(2 ** n):
-                        ops = []
-                        for j, st in enumerate(seq):
-                            if mask >> j & 1:
-                                ops.append(['read'])
-                            ops.append([st[0]] + ([sets[st[1]]] if len(st) > 1 else []))
-                        ops.append(['read'])
                         for reads in ('own', 'params', 'all'):
                             for level in ('app', 'bare'):
                                 for framing in (('cl',) if what == 'hq' else ('cl', 'chunked')):
                                     i += 1
-                                    yield dict(kind=what, level=level, start=None if start is None else sets[start], ops=ops,
-                                               reads=reads, framing=framing, enc=ENCODERS[i % 4],
+                                    enc = ENCODERS[i % 4]
+                                    use = sets
+                                    if what == 'hb' and framing == 'cl':
+                                        # Content-Length framing: every body of the history has the same length (the length a
+                                        # request announces is remembered by the request; see the report of round 4)
+                                        if start is None:
+                                            continue
+                                        enc = ENCODERS[i % 3]          # ('all' triples every pad byte: no common length)
+                                        total = max(len(encode([tuple(p) for p in v], enc)) for v in sets.values()) + 4
+                                        use = {k: _padded(v, enc, total) for k, v in sets.items()}
+                                    ops = []
+                                    for j, st in enumerate(seq):
+                                        if mask >> j & 1:
+                                            ops.append(['read'])
+                                        ops.append([st[0]] + ([use[st[1]]] if len(st) > 1 else []))
+                                    ops.append(['read'])
+                                    yield dict(kind=what, level=level, start=None if start is None else use[start], ops=ops,
+                                               reads=reads, framing=framing, enc=enc,
                                                other=(BSETS if what == 'hq' else QSETS)[('P1', 'E', 'P2')[i % 3]])
 
 
